@@ -780,8 +780,14 @@ class DirectoryRecord:
                     if not allow_duplicate:
                         raise pycdlibexception.PyCdlibInvalidInput('Failed adding duplicate name to parent')
 
-                    self.children[index].data_continuation = child
-                    self.children[index].file_flags |= (1 << self.FILE_FLAG_MULTI_EXTENT_BIT)
+                    # The new child continues the last extent of the file, which
+                    # is not the first one once there are more than two.
+                    last = self.children[index]
+                    while last.data_continuation is not None:
+                        last = last.data_continuation
+                        index += 1
+                    last.data_continuation = child
+                    last.file_flags |= (1 << self.FILE_FLAG_MULTI_EXTENT_BIT)
                     index += 1
         self.children.insert(index, child)
 
